@@ -209,6 +209,15 @@ static const char *err_name (PError *e) {
 	return buf;
 }
 
+/* the class of an error as the model knows it (which code a failed open maps to is perror.c's business) */
+static const char *err_class (PError *e) {
+	if (e == NULL) return "none";
+	int c = p_error_get_code (e);
+	if (c == (int) P_ERROR_IO_INVALID_ARGUMENT) return "invalid";
+	if (c == (int) P_ERROR_IO_NOT_EXISTS) return "notexists";
+	return "other";
+}
+
 static size_t total_keys (PIniFile *ini, size_t *nsec) {
 	size_t n = 0;
 	PList *secs = p_ini_file_sections (ini);
@@ -326,7 +335,7 @@ static int capture_end (int save) {
 
 /* lifec SEC KEY: the current file parsed while the parser's fclose reports a failure (C: result, error, is_parsed,
  * number of fclose calls the parse made, content), then parsed again after the file changed on disk (Q: nothing changes);
- * X: a path that does not exist parsed with the failure armed (fopen fails: no fclose call at all) */
+ * X E L D: objects for paths that fopen refuses / a directory, parsed with the failure armed (fopen fails: no fclose call at all) */
 static void do_lifec (char **t) {
 	int ok1, ok2;
 	char *sec = arg_str (t[1], &ok1), *key = arg_str (t[2], &ok2);
@@ -362,20 +371,35 @@ static void do_lifec (char **t) {
 	printf (" S=%zu K=%zu ", ns, nk);
 	getters_with (ini, sec, key, "c", 7, 1, 0.5);
 	p_ini_file_free (ini);
-	char missing[96];
-	snprintf (missing, sizeof missing, "%s/missing.ini", dir_tmpl);
-	ini = p_ini_file_new (missing);
-	if (ini == NULL) { puts (" new-failed"); free (sec); free (key); return; }
-	err = NULL;
-	before = fclose_calls;
-	fclose_fail_armed = 1;
-	cap = capture_begin ();
-	r = p_ini_file_parse (ini, &err);
-	w = capture_end (cap);
-	fclose_fail_armed = 0;
-	printf (" X r=%d err=%s p=%d fc=%d w=%d\n", r ? 1 : 0, err_name (err), p_ini_file_is_parsed (ini) ? 1 : 0, fclose_calls - before, w);
-	p_error_free (err);
-	p_ini_file_free (ini);
+	/* the other outcomes of fopen, each with the failure armed: X a file that does not exist (ENOENT), E a path through a
+	 * regular file (ENOTDIR), L a name of 5000 bytes (ENAMETOOLONG), D a directory (opens; the first fgets fails: an empty file) */
+	static char longname[5100];
+	char other[4][96];
+	snprintf (other[0], sizeof other[0], "%s/missing.ini", dir_tmpl);
+	snprintf (other[1], sizeof other[1], "%s/x", path);
+	snprintf (other[3], sizeof other[3], "%s", dir_tmpl);
+	int k = snprintf (longname, sizeof longname, "%s/", dir_tmpl);
+	memset (longname + k, 'a', 5000);
+	longname[k + 5000] = '\0';
+	const char *paths[4] = { other[0], other[1], longname, other[3] };
+	const char *tags = "XELD";
+	for (int i = 0; i < 4; ++i) {
+		ini = p_ini_file_new (paths[i]);
+		if (ini == NULL) { puts (" new-failed"); free (sec); free (key); return; }
+		err = NULL;
+		before = fclose_calls;
+		fclose_fail_armed = 1;
+		cap = capture_begin ();
+		r = p_ini_file_parse (ini, &err);
+		w = capture_end (cap);
+		fclose_fail_armed = 0;
+		printf (" %c r=%d err=%s p=%d fc=%d w=%d", tags[i], r ? 1 : 0, err_class (err), p_ini_file_is_parsed (ini) ? 1 : 0, fclose_calls - before, w);
+		p_error_free (err);
+		nk = total_keys (ini, &ns);
+		printf (" S=%zu K=%zu", ns, nk);
+		p_ini_file_free (ini);
+	}
+	putchar ('\n');
 	free (sec); free (key);
 }
 
